@@ -33,7 +33,7 @@ PROPS["C14"] = dict(
                "Rate's conservation/frame/equivalence hold for ANY value of its float expressions (uninterpreted-function encoding). Rate's order and n/2 share bound are "
                "decided on a catalogue of concrete lists with a symbolic dividend, split into L1 (exact IEEE-754: the rounded part is within 1/2 of the exact share) and "
                "L2 (the real Rate with only L1 assumed about its float expression), plus a direct exact-float cross-check for small dividends.",
-    level_note="Bounds: n<=4 quick / n<=8 thorough; E foreign keys; catalogue lists; dividend < 2^Dbits for the float parts. Outside: fully symbolic priorities under exact floats, "
+    level_note="Bounds: n<=4 quick / n<=8 thorough; E foreign keys; catalogue lists; dividend < 2^Dbits for the float parts. Recorded finding (known_findings.txt): from dividends of 2^54 up the share clause fails (float64 precision); the exact-float instances at 2^54+d report it as KNOWN-FINDING. Outside: fully symbolic priorities under exact floats, priorities whose sum exceeds the word, "
                "dividends >= 2^32 for the share bound. Trusted: encoder, SMT solvers' FP theory (cvc5), math.Round = roundToIntegral RNA, float64(uint) = to_fp_unsigned RNE, uint(float) = fp.to_ubv RTZ.",
     technique="symbolic execution of go/ssa; Int encoding (Fair), uninterpreted floats (Rate structure), exact SMT floating point with cvc5 (Rate values)",
     bounds=dict(quick="Fair/Rate-structure n in 1..4 symbolic priorities, E=1 foreign key; equivalence n in 1..4; L1 on lists [3 2 1],[2 1],[1] with D<2^16; L2 on [3 2 1],[70 20 10],[7 5 3 1] with D<2^32; exact Rate on [3 2 1],[7 5 3 1] with D<2^6, and on [1],[2 1] with D = 2^53 + d and 2^54 + d, d<16 (both modules)",
@@ -182,7 +182,7 @@ for _pid in ("C04", "C12"):
                    "elements supplied, not by Quantity) and a symbolic clock: batch k starts >= k Intervals after creation, batches hold <= Quantity sends, sends of batches a<b are "
                    ">= (b-a-1) Intervals apart (these imply the two stated count formulas by the 3-line derivation in DESIGN 7 C04); in addition the two stated count formulas themselves, on observable "
                    "instants only (creation, the instants at which elements leave): t_i - t0 >= floor(i/Q)*Interval and t_j - t_i >= (floor((j-i)/Q)-1)*Interval, floor(./Q) split into cases, asserted for the last "
-                   "element of every run (runs with fewer elements are the prefixes); pass-through, close, pause counts for C12. A limit discipline that paces with a ticker is outside the harness (machinery stop).",
+                   "element of every run with at most 4 elements (runs with fewer elements are the prefixes; at 5 elements one window query stays undecided); pass-through, close, pause counts for C12. A limit discipline that paces with a ticker is outside the harness (machinery stop).",
         level_note="Bound: M elements (<=5), buffered (prefilled) and unbuffered (parked producer) input. Clock readings < 2^62 ns. Trusted: engine, time model.",
         technique="symbolic execution of go/ssa with a symbolic clock; Int-encoded SMT queries (z3)",
         bounds=dict(quick="M in 0..5 elements; three arrival patterns (all up-front, eager unbuffered writers, bursts after stalls)", thorough="as quick, 600 s per query (M=6 leaves one C04 obligation undecided and is not registered)"),
